@@ -37,7 +37,7 @@ def build(cfg, like=None):
                                  shared_counter=idblob.SHARED)
     if c.get("ro_buffer"):
         like.ro_buffer = True        # vectorised likelihood returns a read-only view of a buffer it reuses on the next call
-    pt = idblob.Transform(t, dtype=c.get("xdtype"))
+    pt = idblob.Transform(t, dtype=c.get("xdtype"), alias=c.get("xalias", False))
     periodic, reflective = t.periodic, t.reflective
     if c["bc"] != "target":
         periodic, reflective = c["bc"]
